@@ -341,7 +341,8 @@ impl<'a> TypeGenerator<'a> {
 
         let mut ty = self.resolve_type(id)?;
 
-        if ty.path.ident() == Some("Cow".to_string()) {
+        // Only the prelude `Cow` is transparent; a user type that happens to be called `Cow` is not.
+        if ty.path.segments == ["Cow"] {
             let inner_ty_id = ty.type_params[0]
                 .ty
                 .ok_or_else(|| {
